@@ -1,6 +1,7 @@
 mod decode;
 mod gen;
 mod gen2;
+mod gen3;
 mod ix;
 mod ixtable;
 mod model;
@@ -58,6 +59,9 @@ fn mk_c14() -> Vec<Box<dyn Monitor>> {
 }
 fn mk_c16() -> Vec<Box<dyn Monitor>> {
     vec![Box::new(mon::c16::C16)]
+}
+fn mk_c18() -> Vec<Box<dyn Monitor>> {
+    vec![Box::new(mon::c18::C18)]
 }
 fn mk_c06() -> Vec<Box<dyn Monitor>> {
     vec![Box::new(mon::swaps::C06)]
@@ -197,6 +201,17 @@ fn specs() -> Vec<CheckSpec> {
         mk: mk_c16,
         level: "exploration",
         rule: "pools over Token-2022 mints with TransferFeeConfig (basis points 0/1/30/100/500/5000/9999/10000, maximum fee 0/10/1e6/1e12/u64::MAX, mixed with fee-less Token-2022 and plain SPL mints), tiny epochs so that the fee schedule switches while a mint-authority actor issues SetTransferFee; the real Token-2022 processor moves the tokens and the fee actually withheld is read from the destination account's withheld delta; for every landed swap_v2 / two_hop_swap_v2 / increase_v2 / decrease_v2 / by-token-amounts: included = excluded + fee with the SPL fee of the sent amount, the vault receives at least the curve amount (trace / exact oracle), the amount requested from the user is the smallest whose fee-reduced value covers the need and never above the stated maximum, the vault sends exactly the curve amount and thresholds / token minima are compared with what the user receives, events (Traded; Pinocchio liquidity events via hook H2) report the amounts moved; a case is one (instruction, direction, mode, fee class of each mint, partial fill) tuple",
+        quick_runs: 400,
+        thorough_secs: 600,
+        assumptions: COMMON_ASSUMPTIONS,
+        extra: None,
+    },
+    CheckSpec {
+        id: "C18",
+        profile: Profile::Lifecycle,
+        mk: mk_c18,
+        level: "exploration",
+        rule: "LP actors attempt legal and illegal life-cycle transitions in random order under crash/duplicate/reorder faults: open (plain, metadata, token-extension, bundled) with valid ranges and with off-spacing / lower>=upper / out-of-bounds / non-full-range-on-full-range-only / one-sentinel / both-sentinel bounds, close empty and non-empty, reset (non-empty, same range, invalid range), lock (empty, twice, non-token-extension), decrease / close / reset / reposition on locked positions, increase and collect on locked positions, transfer-locked, open an occupied or out-of-range bundle index, close a free one, delete a non-empty bundle; a rule-based model evaluated on the pre-state of every landed instruction predicts what must be rejected, and after each accepted step the ledger must show: supply 1 / no mint authority / token with the owner, stored range = resolved range (sentinels: nearest usable tick on one side of the price), clean fresh position, checkpoints zero after reset, token account frozen iff locked, bitmap = set of open bundled positions; a case is one (instruction, model inputs, outcome) tuple",
         quick_runs: 400,
         thorough_secs: 600,
         assumptions: COMMON_ASSUMPTIONS,
